@@ -23,7 +23,7 @@ from vlib.elf import Elf
 
 PROP = "C34"
 META = {
-    "ready": False,
+    "ready": True,
     "level": "exploration",
     "technique": "TLA+ oracle (symbolic-target comparison, TLC-checked exact and layout independent) and a TLC-enumerated corruption grammar, replayed into the real linker-diff on generated programs linked by GNU ld and wild with exactly one relocated site patched",
     "level_text": "TLC enumerates site kind (call rel32, RIP-relative lea, RIP-relative load, GOT slot, absolute data pointer) x class of the original target x redirection (none, other function, other datum, same symbol+8) and states the expected verdict; each case is applied to several generated x86-64 programs: the wild output (with its layout file) is compared by the real linker-diff with itself and a byte-identical copy (must be quiet), and, with exactly one site patched to designate the redirected target, with GNU ld's output of the same program (must report) - counted only when the unpatched pair was quiet.",
@@ -136,11 +136,11 @@ def patch(binary_bytes, elf, site, new_target_va):
 def new_target(case, site, info, elf, rng):
     t = site["target"]
     if case["redir"] == "other-function":
-        c = [f for f in info["funcs"] if f != t]
-        return elf.symbol(rng.choice(c))["value"], "other function"
+        c = [f for f in info["funcs"] if f != t and elf.symbol(f)]
+        return (elf.symbol(rng.choice(c))["value"], "other function") if c else (None, "")
     if case["redir"] == "other-datum":
-        c = [x for x in info["datas"] if x != t]
-        return elf.symbol(rng.choice(c))["value"], "other datum"
+        c = [x for x in info["datas"] if x != t and elf.symbol(x)]
+        return (elf.symbol(rng.choice(c))["value"], "other datum") if c else (None, "")
     if case["redir"] == "same+8":
         return elf.symbol(t)["value"] + 8, f"{t}+8"
     return elf.symbol(t)["value"], "unchanged"
@@ -224,8 +224,9 @@ def run(ctx):
 
         jobs = []
         for sub, objs, info in assessable:
-            sites = sites_of(objs)
             elf = Elf(sub / "out")
+            # sections that were garbage collected have no site in the output
+            sites = [s for s in sites_of(objs) if elf.symbol(s["holder"]) and elf.symbol(s["target"])]
             raw = (sub / "out").read_bytes()
             for ci, case in enumerate(cases):
                 cands = [s for s in sites if s["kind"] == case["kind"] and s["tclass"] == case["orig"]]
@@ -234,6 +235,9 @@ def run(ctx):
                     continue
                 site = rng.choice(cands)
                 va, desc = new_target(case, site, info, elf, rng)
+                if va is None:
+                    detect["not_assessable"] += 1
+                    continue
                 jobs.append((sub, ci, case, site, va, desc, patch(raw, elf, site, va)))
         if not jobs:
             raise ToolError("no corruption case could be applied")
